@@ -272,6 +272,153 @@ theorem attr_media_is_lower (text : String) :
   obtain ⟨part, _, rfl⟩ := hm
   simp [pyLower, List.map_map, Function.comp_def, toLower_idem]
 
+private theorem toUpper_toNat (c : Char) :
+    c.toUpper.toNat = if 97 ≤ c.toNat ∧ c.toNat ≤ 122 then c.toNat - 32 else c.toNat := by
+  unfold Char.toUpper
+  have ha : 'a'.val.toNat = 97 := by decide
+  have hz : 'z'.val.toNat = 122 := by decide
+  have hd : ('A'.val - 'a'.val).toNat = 2 ^ 32 - 32 := by decide
+  split
+  · rename_i h
+    simp only [UInt32.le_iff_toNat_le, ha, hz] at h
+    have h' : 97 ≤ c.toNat ∧ c.toNat ≤ 122 := h
+    simp only [h', and_self, if_true]
+    show (c.val + ('A'.val - 'a'.val)).toNat = c.val.toNat - 32
+    rw [UInt32.toNat_add, hd]
+    have : c.val.toNat = c.toNat := rfl
+    omega
+  · rename_i h
+    simp only [UInt32.le_iff_toNat_le, ha, hz] at h
+    have h' : ¬ (97 ≤ c.toNat ∧ c.toNat ≤ 122) := h
+    simp only [h', if_false]
+
+private def isSpaceNat (n : Nat) : Bool :=
+  n == 32 || n == 9 || n == 10 || n == 13 || n == 11 || n == 12 || (28 ≤ n && n ≤ 31)
+
+private theorem beq_char_nat (c d : Char) : (c == d) = (c.toNat == d.toNat) := by
+  apply Bool.eq_iff_iff.mpr
+  simp [Char.toNat_inj]
+
+private theorem pyIsSpace_nat (c : Char) : pyIsSpace c = isSpaceNat c.toNat := by
+  unfold pyIsSpace isSpaceNat
+  rw [beq_char_nat c ' ', beq_char_nat c '\t', beq_char_nat c '\n', beq_char_nat c '\r']
+  have h1 : ' '.toNat = 32 := by decide
+  have h2 : '\t'.toNat = 9 := by decide
+  have h3 : '\n'.toNat = 10 := by decide
+  have h4 : '\r'.toNat = 13 := by decide
+  rw [h1, h2, h3, h4]
+
+private theorem isSpace_toUpper (c : Char) : pyIsSpace c.toUpper = pyIsSpace c := by
+  rw [pyIsSpace_nat, pyIsSpace_nat, toUpper_toNat]
+  split
+  · rename_i h
+    have a : isSpaceNat (c.toNat - 32) = false := by
+      unfold isSpaceNat; simp; omega
+    have b : isSpaceNat c.toNat = false := by
+      unfold isSpaceNat; simp; omega
+    rw [a, b]
+  · rfl
+
+private theorem comma_toUpper (c : Char) : (c.toUpper == ',') = (c == ',') := by
+  rw [beq_char_nat, beq_char_nat c, toUpper_toNat]
+  have h : ','.toNat = 44 := by decide
+  rw [h]
+  split
+  · rename_i hr
+    have a : (c.toNat - 32 == 44) = false := by simp; omega
+    have b : (c.toNat == 44) = false := by simp; omega
+    rw [a, b]
+  · rfl
+
+private theorem toLower_toNat (c : Char) :
+    c.toLower.toNat = if 65 ≤ c.toNat ∧ c.toNat ≤ 90 then c.toNat + 32 else c.toNat := by
+  unfold Char.toLower
+  have ha : 'A'.val.toNat = 65 := by decide
+  have hz : 'Z'.val.toNat = 90 := by decide
+  have hd : ('a'.val - 'A'.val).toNat = 32 := by decide
+  split
+  · rename_i h
+    simp only [ge_iff_le, UInt32.le_iff_toNat_le, ha, hz] at h
+    have h' : 65 ≤ c.toNat ∧ c.toNat ≤ 90 := h
+    simp only [h', and_self, if_true]
+    show (c.val + ('a'.val - 'A'.val)).toNat = c.val.toNat + 32
+    rw [UInt32.toNat_add, hd]
+    have : c.val.toNat = c.toNat := rfl
+    omega
+  · rename_i h
+    simp only [ge_iff_le, UInt32.le_iff_toNat_le, ha, hz] at h
+    have h' : ¬ (65 ≤ c.toNat ∧ c.toNat ≤ 90) := h
+    simp only [h', if_false]
+
+private theorem toLower_toUpper (c : Char) : c.toUpper.toLower = c.toLower := by
+  apply Char.toNat_inj.mp
+  rw [toLower_toNat, toLower_toNat, toUpper_toNat]
+  split <;> (try split) <;> (try split) <;> omega
+
+
+/-- ASCII upper-casing of a text (`str.upper()` on ASCII). -/
+def up (l : List Char) : List Char := l.map Char.toUpper
+
+private theorem dropWhile_up (l : List Char) : (up l).dropWhile pyIsSpace = up (l.dropWhile pyIsSpace) := by
+  induction l with
+  | nil => rfl
+  | cons c rest ih =>
+    simp only [up, List.map_cons, List.dropWhile_cons, isSpace_toUpper]
+    split
+    · exact ih
+    · rfl
+
+private theorem strip_up (l : List Char) : pyStrip (up l) = up (pyStrip l) := by
+  unfold pyStrip
+  rw [dropWhile_up]
+  simp only [up, ← List.map_reverse]
+  rw [show List.map Char.toUpper (List.dropWhile pyIsSpace l).reverse = up (List.dropWhile pyIsSpace l).reverse from rfl,
+    dropWhile_up]
+  simp only [up, List.map_reverse]
+
+private theorem split_up (l : List Char) : pySplitOn ',' (up l) = (pySplitOn ',' l).map up := by
+  induction l with
+  | nil => rfl
+  | cons c rest ih =>
+    simp only [up, List.map_cons, pySplitOn, comma_toUpper]
+    split
+    · simp only [List.map_cons]; rw [← ih]; rfl
+    · rw [show List.map Char.toUpper rest = up rest from rfl, ih]
+      cases h : pySplitOn ',' rest with
+      | nil => rfl
+      | cons p ps => rfl
+
+private theorem lower_up (l : List Char) : pyLower (up l) = pyLower l := by
+  simp [pyLower, up, List.map_map, Function.comp_def, toLower_toUpper]
+
+/-- **The media attribute is ASCII case-insensitive — for every attribute text.**  Upper-casing
+the whole text (any mix of cases therefore) does not change the media list `find_stylesheets`
+derives from it: stripping, the `or 'all'` default, the split on commas and the per-item strip
+commute with the case change, and `.lower()` (commit b7ca8f6) erases it.  Before that commit the
+statement was false (`media="PRINT"`, finding media-attr-case-sensitive). -/
+theorem attr_media_case_insensitive (text : String) :
+    attrMedia (String.ofList (up text.toList)) = attrMedia text := by
+  unfold attrMedia
+  simp only [String.toList_ofList, strip_up]
+  by_cases he : (pyStrip text.toList).isEmpty = true
+  · have : (up (pyStrip text.toList)).isEmpty = true := by
+      simpa [up] using he
+    simp only [he, this, if_true]
+  · have : (up (pyStrip text.toList)).isEmpty = false := by
+      simpa [up] using he
+    have he' : (pyStrip text.toList).isEmpty = false := by simpa using he
+    simp only [he', this, Bool.false_eq_true, if_false, split_up, List.map_map]
+    apply List.map_congr_left
+    intro part _
+    simp only [Function.comp, strip_up, lower_up]
+
+/-- Two attribute texts that differ only in ASCII case select the same sheets, for every device. -/
+theorem media_attr_same_up_to_case (a b : String) (h : up a.toList = up b.toList) (device : String) :
+    evaluateMediaQuery (attrMedia a) device = evaluateMediaQuery (attrMedia b) device := by
+  rw [← attr_media_case_insensitive a, ← attr_media_case_insensitive b, h]
+
+example : up "Screen, Print".toList = up "SCREEN, print".toList := by decide
+
 /-- `media="PRINT"`, `media=" Screen , Print "` select the print device like their lower-case
 spellings (the inputs of the repaired finding), and a list without the device does not. -/
 theorem attr_media_case_insensitive_examples :
